@@ -46,11 +46,17 @@ type c07Fill struct {
 	Completed bool     `json:"completed"`
 	Aborted   bool     `json:"aborted"`
 	Calls     int      `json:"calls"`
+	Meta      int      `json:"meta,omitempty"` // bit i: component i (lbound, rbound, filler, refiller, padding, tip; spinner: any) is wrapped in SGR codes by a meta function
 }
+
+func c07SGR(s string) string { return "\x1b[31;1m" + s + "\x1b[0m" }
 
 func (c c07Fill) build() mpb.BarFiller {
 	if c.Kind == "spinner" {
 		s := mpb.SpinnerStyle(c.Tips...)
+		if c.Meta != 0 {
+			s = s.Meta(c07SGR)
+		}
 		switch c.Pos {
 		case 1:
 			s = s.PositionLeft()
@@ -65,6 +71,11 @@ func (c c07Fill) build() mpb.BarFiller {
 	}
 	if c.TipOnC {
 		b = b.TipOnComplete()
+	}
+	for i, set := range []func(func(string) string) mpb.BarStyleComposer{b.LboundMeta, b.RboundMeta, b.FillerMeta, b.RefillerMeta, b.PaddingMeta, b.TipMeta} {
+		if c.Meta&(1<<uint(i)) != 0 {
+			b = set(c07SGR)
+		}
 	}
 	return b.Build()
 }
@@ -209,6 +220,9 @@ func genC07Fill(r *common.Rng, grid bool, gi int) c07Fill {
 	if r.Chance(1, 3) {
 		c.Req = r.Range(-1, 400)
 	}
+	if r.Chance(1, 4) {
+		c.Meta = 1 + r.Intn(63)
+	}
 	return c
 }
 
@@ -223,6 +237,9 @@ func genC07Spin(r *common.Rng) c07Fill {
 		c.Req = r.Range(-1, 400)
 	}
 	c.Total, c.Current = 100, int64(r.Intn(101))
+	if r.Chance(1, 3) {
+		c.Meta = 1
+	}
 	return c
 }
 
